@@ -267,6 +267,9 @@ pub struct Finding {
     pub what: String,
     #[serde(default)]
     pub repro: Option<String>,
+    /// generator feature tags masked in the main search while this finding is open
+    #[serde(default)]
+    pub gates: Vec<String>,
     #[serde(default)]
     pub fixed_by: Option<String>,
 }
